@@ -27,7 +27,9 @@ func (e *executor[R]) Apply(innerFn func(failsafe.Execution[R]) *common.PolicyRe
 		// Create child context
 		execInternal = execInternal.CopyForCancellable().(policy.ExecutionInternal[R])
 		var result atomic.Pointer[common.PolicyResult[R]]
+		timedOut := make(chan struct{})
 		timer := time.AfterFunc(e.timeLimit, func() {
+			defer close(timedOut)
 			timeoutResult := internal.FailureResult[R](ErrExceeded)
 			if result.CompareAndSwap(nil, timeoutResult) {
 				if e.onTimeoutExceeded != nil {
@@ -47,6 +49,10 @@ func (e *executor[R]) Apply(innerFn func(failsafe.Execution[R]) *common.PolicyRe
 		// Store result and ctxCancel timeout context if needed
 		if result.CompareAndSwap(nil, innerFn(execInternal)) {
 			timer.Stop()
+		} else {
+			// The timeout won the race: wait until it has recorded its cancellation, so that this happens before outer
+			// policies carry on, rather than at some later point of the execution
+			<-timedOut
 		}
 		return e.PostExecute(execInternal, result.Load())
 	}
